@@ -81,7 +81,7 @@ Recompute(evs, k) == IF k = 1 THEN <<evs[1]>>
 \* extension is normalised away), a hash shorter than its declared length does not decode at all (the
 \* message is refused by the decoder); CBOR carries the bytes as they are
 JsonHash(h) == IF h.cut = "rawext" THEN [h EXCEPT !.cut = "full"] ELSE h
-JsonDecodes(h) == h.cut \notin {"rawpre", "empty"}
+JsonDecodes(h) == h.cut # "rawpre"       \* (the empty hash decodes since fix 79cf44c)
 Transport(kind) ==
    /\ msg.transported = "no"
    /\ (kind = "json" /\ N > 0) => JsonDecodes(msg.events[1].ph)
